@@ -524,7 +524,7 @@ fn judge(o: &mut Outcome, h: &Hist, r: &HistOut) {
         o.class(&format!("step:{}", format!("{s:?}").split('(').next().unwrap()));
     }
     for v in &r.violations {
-        o.violation("c14:protocol-violation-seen-by-node", v.clone(), replay_base.clone());
+        o.node_violation("c14", &v, replay_base.clone());
     }
     for op in &r.ops {
         let seen = r.seen.get(&op.pk).cloned().unwrap_or_default();
